@@ -61,6 +61,7 @@ type vC11SAtt struct {
 type vC11SReq struct {
 	name    int
 	path    int // 0 ServeMsg, 1 ring, 2 inline first
+	shape   int // datagram shape: 0 OPT, 1 no OPT, (both carried by the strict wire parser), 3 / 4 OPT with an option it declines: DAU, a local-use code (decoded fallback of ServeRaw / ServeRawInline / ServeRawReplay)
 	arrive  int
 	age     int // how long the datagram sat before the reader got to it (read time = arrive - age)
 	hold    int // 0 none, 1 until released, 2 until its context ends
@@ -371,6 +372,13 @@ func vC11SGen(r *rand.Rand) *vC11SScenario {
 			sc.faults[ei] = d
 		}
 	}
+	// the datagram's shape: the model knows one deadline rule (read time + query timeout) for every
+	// shape; the code has a strict wire branch and a decoded fallback in each of its three entries
+	for _, rq := range sc.reqs {
+		if rq.path != 0 {
+			rq.shape = []int{0, 0, 3, 4}[r.Intn(4)] // always with an OPT: the deadline reply is told from other SERVFAILs by its EDE
+		}
+	}
 	return sc
 }
 
@@ -522,7 +530,16 @@ func vC11ServerRun(t *testing.T, withShutdown bool) {
 				msg := new(dns.Msg)
 				msg.SetQuestion(fmt.Sprintf("n%d.c11.example.", rq.name), dns.TypeA)
 				msg.Id = uint16(idx + 1)
-				msg.SetEdns0(1232, false)
+				switch rq.shape {
+				case 3:
+					msg.SetEdns0(1232, false)
+					msg.IsEdns0().Option = append(msg.IsEdns0().Option, &dns.EDNS0_DAU{Code: dns.EDNS0DAU, AlgCode: []uint8{8, 13}})
+				case 4:
+					msg.SetEdns0(1232, false)
+					msg.IsEdns0().Option = append(msg.IsEdns0().Option, &dns.EDNS0_LOCAL{Code: 65001, Data: []byte{1, 2}})
+				default:
+					msg.SetEdns0(1232, false)
+				}
 				if rq.path == 0 {
 					rq.done = make(chan struct{})
 					parent, cancel := context.WithCancel(context.Background())
@@ -651,12 +668,16 @@ func vC11ServerRun(t *testing.T, withShutdown bool) {
 			deadline := rq.arrive - rq.age + sc.qt
 			hold := []string{"HNone", "HUntilRelease", "HUntilCtx"}[rq.hold]
 			reqCoq = append(reqCoq, fmt.Sprintf("new_preq %d false %d %s [%s]", rq.name, deadline, hold, strings.Join(atts, "; ")))
-			paths = append(paths, fmt.Sprintf("%d%%N", rq.path))
+			mpath := rq.path
+			if mpath == 2 && rq.shape >= 3 {
+				mpath = 3 // inline first, declined by the strict parser: handed off outright, the replay decodes
+			}
+			paths = append(paths, fmt.Sprintf("%d%%N", mpath))
 			cancelled := rq.cancel >= 0
 			expired := rq.writes > 0 && rq.wtime >= deadline
 			obsCoq = append(obsCoq, fmt.Sprintf("mk_pobs %d %d %v %v %v %d %v %d", rq.writes, rq.class, rq.called.Load(), cancelled, expired, rq.wtime, rq.racy, rq.endAt.Load()))
 			entered = append(entered, fmt.Sprint(rq.entered.Load()))
-			desc = append(desc, map[string]any{"i": i, "q": rq.name, "path": []string{"ServeMsg", "udp-ring", "udp-inline"}[rq.path], "arrive": rq.arrive, "read_age": rq.age, "deadline": deadline,
+			desc = append(desc, map[string]any{"i": i, "q": rq.name, "path": []string{"ServeMsg", "udp-ring", "udp-inline"}[rq.path], "shape": []string{"opt", "no-opt", "", "opt+DAU", "opt+local-option"}[rq.shape], "arrive": rq.arrive, "read_age": rq.age, "deadline": deadline,
 				"hold": hold, "atts": fmt.Sprint(rq.atts), "cancel_at": rq.cancel, "release_at": rq.release,
 				"replies": rq.writes, "class": rq.class, "chain_entered": rq.entered.Load(), "resolver_standin": rq.called.Load(), "seen_at": rq.wtime, "returned_at": rq.endAt.Load()})
 			if rq.writes > 1 && goFail == "" {
